@@ -76,7 +76,10 @@ Request(zs, n) == StreamG(zs, n, <<>>)
 \* does one of the n rounds from state zs START with a memory word of F equal to zero?  (2^-32 per round: sessions with such a round are searched by the
 \* driver and recognised here)
 RECURSIVE RZeroC(_, _)
-RZeroC(zs, n) == IF n = 0 THEN FALSE ELSE zs.r1 = <<0,0>> \/ zs.r2 = <<0,0>> \/ RZeroC(Produce(zs)[2], n - 1)
+\* ... or with an all-zero input word to one of the two S-box layers of F (u = W1_L || W2_H, v = W2_L || W1_H; L1 / L2 are bijections, so this is "S(0)")
+FInZero2(w1, w2) == <<w1[2], w2[1]>> = <<0,0>> \/ <<w2[2], w1[1]>> = <<0,0>>
+FInZero(zs) == FInZero2(WAdd(zs.r1, X1(zs.s)), WXor(zs.r2, X2(zs.s)))
+RZeroC(zs, n) == IF n = 0 THEN FALSE ELSE zs.r1 = <<0,0>> \/ zs.r2 = <<0,0>> \/ FInZero(zs) \/ RZeroC(Produce(zs)[2], n - 1)
 RECURSIVE RZeroG(_, _)
 RZeroG(zs, n) == IF n <= 0 THEN FALSE ELSE IF n <= 64 THEN RZeroC(zs, n) ELSE RZeroC(zs, 64) \/ RZeroG(StreamC(zs, 64, <<>>)[2], n - 64)
 RZero(zs, n) == RZeroG(zs, n)
